@@ -249,6 +249,18 @@ class Reader:
                 out.add(self.by_call_bb[a[4]]["pos"])
         return out
 
+    def _decoded_ranges(self):
+        """range accesses whose slice is handed directly to the fixed-width integer decoder: the value IS those bytes"""
+        if getattr(self, "_dr", None) is None:
+            self._dr = set()
+            for bi, t in self.body.calls():
+                r = t.callee.res or t.callee.name or ""
+                if r.endswith("u32_from_bytes") and len(t.args) == 1:
+                    acc = self._direct_access(t.args[0])
+                    if acc is not None:
+                        self._dr.add(acc["pos"])
+        return self._dr
+
     def guard_edges(self, bb):
         """non-validation branch edges that dominate block bb: (switch_bb, target) where another successor can still return normally"""
         b = self.body
@@ -286,7 +298,7 @@ class Reader:
         pvi = Prov(self.prog, inline=False)
         for pos in self.value_accesses(pvi.of_operand(self.body, op)):
             acc = self.accesses[pos]
-            if acc["lo"] is not None and (acc["kind"] == "one" or include_ranges):
+            if acc["lo"] is not None and (acc["kind"] == "one" or include_ranges or pos in self._decoded_ranges()):
                 out[self.key(acc["lo"])] = "byte[%s%s]" % (self.fmt(acc["lo"]), "" if acc["kind"] == "one" else "..")
         # drop the length fields: constant-offset bytes that occur inside the offset of another byte of the set
         inner = set()
